@@ -125,6 +125,21 @@ Proof.
   - apply ext_same_heap; auto.
 Qed.
 
+(* ---------- proof helpers: transport the stable facts along an ext step ---------- *)
+Ltac adv E :=
+  match type of E with HeapProofs.ext _ ?s ?s' =>
+    repeat match goal with
+    | X : V s _ |- _ => apply (V_ext _ _ _ _ E) in X
+    | X : Forall (V s) _ |- _ => apply (FV_ext _ _ _ _ E) in X
+    | X : HeapProofs.own _ s _ |- _ => apply (own_ext _ _ _ _ E) in X
+    | X : optO _ s _ |- _ => apply (optO_ext _ _ _ _ E) in X
+    end
+  end.
+Ltac chain E0 E :=
+  let T := fresh "E" in pose proof (ext_trans _ _ _ _ E0 E) as T; adv E; clear E0 E; rename T into E0.
+Ltac fin := repeat match goal with |- _ /\ _ => split end; simpl; auto using ext_refl.
+Ltac mbind H a s1 H1 := apply bind_ok in H; destruct H as (a & s1 & H1 & H).
+
 Section Inv.
 Variable evict : N -> list addr -> list addr.
 Hypothesis evict_sub : forall c w a, In a (evict c w) -> In a w.
@@ -342,21 +357,6 @@ Proof.
   - eapply w_add_ok; eauto.
   - apply ret_ok in H2. destruct H2 as [_ ->]. split; auto. apply ext_refl.
 Qed.
-
-(* ---------- proof helpers: transport the stable facts along an ext step ---------- *)
-Ltac adv E :=
-  match type of E with HeapProofs.ext _ ?s ?s' =>
-    repeat match goal with
-    | X : V s _ |- _ => apply (V_ext mark _ _ _ E) in X
-    | X : Forall (V s) _ |- _ => apply (FV_ext mark _ _ _ E) in X
-    | X : HeapProofs.own _ s _ |- _ => apply (own_ext mark _ _ _ E) in X
-    | X : optO _ s _ |- _ => apply (optO_ext mark _ _ _ E) in X
-    end
-  end.
-Ltac chain E0 E :=
-  let T := fresh "E" in pose proof (ext_trans mark _ _ _ E0 E) as T; adv E; clear E0 E; rename T into E0.
-Ltac fin := repeat match goal with |- _ /\ _ => split end; simpl; auto using ext_refl.
-Ltac mbind H a s1 H1 := apply bind_ok in H; destruct H as (a & s1 & H1 & H).
 
 (* ---------- node helpers ---------- *)
 Lemma key_of_ok a s k s' : key_of a s = Ok (k, s') -> s' = s.
@@ -923,7 +923,7 @@ Lemma abs_frozen m s s' f r : closed m s -> ext m s s' -> r < m -> abs f s' r = 
 Proof.
   intros C E L. unfold abs. rewrite (e_arr _ _ _ E) by auto.
   destruct (find_arr s r) as [l|] eqn:Hl; auto.
-  pose proof (proj2 C _ _ L Hl) as Fl.
+  pose proof (proj2 C _ _ L Hl) as Fl. clear Hl.
   induction Fl as [|x t Hx Ft IHt]; simpl; auto.
   rewrite (abs_node_frozen m s s' C E) by auto. rewrite IHt. auto.
 Qed.
@@ -981,7 +981,7 @@ Proof.
     destruct opn; simpl; auto.
     destruct (good_begin m s pub true G Lp) as (G1 & E1).
     exists m. split; [lia|]. split; [|split; auto].
-    constructor; simpl; auto. eapply closed_ext; eauto.
+    constructor; simpl; auto; try (eapply closed_ext; eauto).
   - (* ECommit *)
     destruct opn; simpl; auto.
     destruct (good_reset_wr m s G) as (G1 & E1).
@@ -996,7 +996,7 @@ Proof.
     destruct (run_op evict fuel o s) as [[[out rm] s']| |] eqn:R; simpl; auto.
     destruct (run_op_ok evict evict_sub m fuel o s _ _ G R) as (G1 & E1).
     exists m. split; [lia|]. split; [|split; auto].
-    constructor; simpl; auto. eapply closed_ext; eauto.
+    constructor; simpl; auto; try (eapply closed_ext; eauto).
   - (* EDirect *)
     destruct opn; simpl; auto.
     destruct (good_begin m s pub (direct_cache o) G Lp) as (G0 & E0).
@@ -1005,7 +1005,7 @@ Proof.
     assert (E : ext m s s') by (eapply ext_trans; eauto).
     assert (Keep : exists m', m <= m' /\ winv m' {| w_st := s'; w_pub := pub; w_open := false; w_handed := handed |} /\
                    ext m s s' /\ (forall r, In r handed -> In r handed)).
-    { exists m. split; [lia|]. split; [|split; auto]. constructor; simpl; auto. eapply closed_ext; eauto. }
+    { exists m. split; [lia|]. split; [|split; auto]. constructor; simpl; auto; try (eapply closed_ext; eauto). }
     destruct out; simpl; auto.
     destruct (good_reset_wr m s' G1) as (G2 & E2).
     exists (s_next (reset_wr s')). pose proof (g_mark _ _ G1). split; [simpl; lia|]. split; [|split; auto].
@@ -1051,3 +1051,148 @@ Proof.
 Qed.
 
 End Hist.
+
+(* ---------- the initial router ---------- *)
+Lemma init_run :
+  (l <- new_empty_roots common_verbs ;; nr <- alloc_arr l ;; set_root nr) empty_st = Ok (tt, init_st).
+Proof. vm_compute. reflexivity. Qed.
+
+Lemma good_empty : good 1 empty_st.
+Proof.
+  constructor; simpl; auto; try lia. constructor; unfold V, find_node, find_arr; simpl.
+  - intros a o H. rewrite PM.gempty in H. discriminate.
+  - intros a l H. rewrite PM.gempty in H. discriminate.
+  - lia.
+Qed.
+
+Lemma good_init : good 1 init_st.
+Proof.
+  pose proof init_run as H.
+  mbind H l s1 H1. destruct (new_empty_roots_ok 1 _ _ _ _ good_empty H1) as (G1 & E1 & F1).
+  mbind H nr s2 H2. destruct (alloc_arr_ok 1 _ _ _ _ G1 F1 H2) as (G2 & E2 & V2 & _).
+  destruct (set_root_ok 1 _ _ _ _ G2 V2 H) as (G3 & _). exact G3.
+Qed.
+
+Lemma winv_init : winv (s_next init_st) init_world.
+Proof.
+  unfold init_world. apply winv_remark with (m := 1); auto.
+  - apply good_init.
+  - simpl. apply (wf_root _ (g_wf _ _ good_init)).
+Qed.
+
+(* ================= the theorems of C03 (statements repeated in Props_C03.v) ================= *)
+
+Definition evict_ok (evict : N -> list addr -> list addr) : Prop := forall c w a, In a (evict c w) -> In a w.
+
+(* ownership invariant, one operation: nothing allocated before the mark changes, and every
+   in-place write (log) targets an address at or after the mark *)
+Theorem writes_only_fresh_op evict fuel mark o s res s' :
+  evict_ok evict -> good mark s -> run_op evict fuel o s = Ok (res, s') ->
+  good mark s' /\
+  (forall a, a < mark -> find_node s' a = find_node s a /\ find_arr s' a = find_arr s a) /\
+  (exists l, s_log s' = (l ++ s_log s)%list /\ Forall (fun t => mark <= t) l).
+Proof.
+  intros Hev G H. destruct (run_op_ok evict Hev mark fuel o s res s' G H) as (G1 & E1).
+  split; auto. split.
+  - intros a L. split; [apply (e_node _ _ _ E1)|apply (e_arr _ _ _ E1)]; auto.
+  - apply (e_log _ _ _ E1).
+Qed.
+
+(* histories: at any point there is a mark m (the allocation pointer at the last snapshot point) such
+   that every roots array handed out so far and everything reachable from it lies below m, and every
+   later in-place write targets an address >= m *)
+Theorem writes_only_fresh_hist evict fuel es1 es2 :
+  evict_ok evict ->
+  let w1 := run evict fuel true init_world es1 in
+  let w2 := run evict fuel true w1 es2 in
+  exists m, Forall (fun r => r < m) (w_handed w1) /\ closed m (w_st w1) /\
+            exists l, s_log (w_st w2) = (l ++ s_log (w_st w1))%list /\ Forall (fun t => m <= t) l.
+Proof.
+  intros Hev w1 w2.
+  destruct (run_inv evict Hev fuel es1 _ _ winv_init) as (m1 & L1 & I1 & _ & _).
+  destruct (run_inv evict Hev fuel es2 _ _ I1) as (m2 & L2 & I2 & E2 & _).
+  exists m1. split; [apply (wi_handed _ _ I1)|]. split; [apply (wi_closed _ _ I1)|]. apply (e_log _ _ _ E2).
+Qed.
+
+Theorem snapshot_frozen_thm evict fuel es1 es2 r f :
+  evict_ok evict ->
+  let w1 := run evict fuel true init_world es1 in
+  let w2 := run evict fuel true w1 es2 in
+  In r (w_handed w1) -> abs f (w_st w2) r = abs f (w_st w1) r.
+Proof.
+  intros Hev w1 w2 Hr.
+  destruct (run_inv evict Hev fuel es1 _ _ winv_init) as (m1 & L1 & I1 & _ & _).
+  destruct (run_inv evict Hev fuel es2 _ _ I1) as (m2 & L2 & I2 & E2 & _).
+  eapply abs_frozen; [apply (wi_closed _ _ I1)|exact E2|].
+  pose proof (wi_handed _ _ I1) as F. rewrite Forall_forall in F. auto.
+Qed.
+
+Lemma run_app evict fuel b w es1 es2 : run evict fuel b w (es1 ++ es2) = run evict fuel b (run evict fuel b w es1) es2.
+Proof. revert w. induction es1 as [|e r IH]; intros w; simpl; auto. Qed.
+
+(* the list of handed-out roots is only a record: it does not influence the run *)
+Definition same_core (w w' : world) : Prop := w_st w = w_st w' /\ w_pub w = w_pub w' /\ w_open w = w_open w'.
+
+Lemma step_core evict fuel b w w' e : same_core w w' ->
+  same_core (fst (fst (step evict fuel b w e))) (fst (fst (step evict fuel b w' e))).
+Proof.
+  intros (Hs & Hp & Ho). destruct w as [s p o h], w' as [s' p' o' h']. simpl in *. subst s' p' o'.
+  unfold same_core. destruct e; simpl; try (destruct o; simpl); auto;
+    repeat match goal with |- context [match ?x with _ => _ end] => destruct x; simpl; auto end.
+Qed.
+
+Lemma run_core evict fuel b es : forall w w', same_core w w' ->
+  same_core (run evict fuel b w es) (run evict fuel b w' es).
+Proof. induction es as [|e r IH]; intros w w' H; simpl; auto. apply IH. apply step_core. auto. Qed.
+
+(* the published tree at any point is such a snapshot (what requests are served from) *)
+Theorem published_frozen_thm evict fuel es1 es2 f :
+  evict_ok evict ->
+  let w1 := run evict fuel true init_world es1 in
+  let w2 := run evict fuel true w1 es2 in
+  abs f (w_st w2) (p_root (w_pub w1)) = abs f (w_st w1) (p_root (w_pub w1)).
+Proof.
+  intros Hev w1 w2.
+  pose proof (snapshot_frozen_thm evict fuel (es1 ++ [EObsPub]) es2 (p_root (w_pub w1)) f Hev) as H.
+  rewrite run_app in H. simpl in H. fold w1 in H.
+  match type of H with _ -> abs _ (w_st (run _ _ _ ?w _)) _ = _ =>
+    assert (C : same_core w w1) by (unfold same_core; simpl; auto) end.
+  apply (run_core evict fuel true es2) in C. destruct C as (Cs & _). fold w2 in Cs.
+  rewrite Cs in H. apply H. apply in_or_app. simpl. auto.
+Qed.
+
+(* the roots of the open write transaction at any point, IF a snapshot is taken there *)
+
+(* ---------- what the reset protects against ----------
+   The same model WITHOUT `t.writable = nil` in snapshot(): Begin; Handle GET /a; Iter(); Handle GET /b.
+   The second Handle finds the new GET root in the writable set and patches its children array in
+   place; the Iter taken in between now shows /b as well. *)
+Definition refute_hist1 : list ev :=
+  [EBegin; EOp (WHandle m_get (S2B "/a") true 0 0 1); ESnapIter].
+Definition refute_hist2 : list ev := [EOp (WHandle m_get (S2B "/b") true 0 0 2)].
+
+Example snapshot_frozen_needs_reset :
+  let ev := lru_evict 10 in
+  let w1 := run ev 10 false init_world refute_hist1 in
+  let w2 := run ev 10 false w1 refute_hist2 in
+  exists r, In r (w_handed w1) /\ abs 10 (w_st w2) r <> abs 10 (w_st w1) r.
+Proof.
+  intros ev w1 w2. exists (s_root (w_st w1)). split.
+  - vm_compute. left. reflexivity.
+  - vm_compute. discriminate.
+Qed.
+
+(* and the same history with the code as it is keeps the snapshot (non-vacuity of the theorem) *)
+Example snapshot_frozen_example :
+  let ev := lru_evict 10 in
+  let w1 := run ev 10 true init_world refute_hist1 in
+  let w2 := run ev 10 true w1 refute_hist2 in
+  w_handed w1 <> [] /\ abs 10 (w_st w2) (s_root (w_st w1)) = abs 10 (w_st w1) (s_root (w_st w1)) /\
+  abs 10 (w_st w2) (s_root (w_st w2)) <> abs 10 (w_st w1) (s_root (w_st w1)).
+Proof. vm_compute. split; [discriminate|]. split; [reflexivity|discriminate]. Qed.
+
+Lemma lru_evict_ok cap : evict_ok (lru_evict cap).
+Proof.
+  unfold evict_ok, lru_evict. intros _ w a H. revert w H. induction cap as [|n IH]; intros [|x w]; simpl; try tauto.
+  intros [->|H]; auto.
+Qed.
